@@ -113,6 +113,37 @@ pub fn select_best_quality_idx(conns: &[crate::connection::SrtlaConnection]) -> 
     best_idx
 }
 
+/// [`select_best_quality_idx`] restricted to links the scheduler itself would
+/// route to at `now_ms`: a link that is timed out (silent past its liveness
+/// window but not yet torn down) or stall-gated by the selection pass that just
+/// ran is a black hole with a healthier alternative, the worst possible place
+/// for must-land traffic. `None` if no link qualifies (caller keeps the normal
+/// selection).
+pub fn select_best_eligible_quality_idx(
+    conns: &[crate::connection::SrtlaConnection],
+    now_ms: u64,
+) -> Option<usize> {
+    let mut best_idx = None;
+    let mut best_quality = f64::NEG_INFINITY;
+
+    for (i, conn) in conns.iter().enumerate() {
+        if !conn.connected
+            || !conn.is_schedulable()
+            || conn.is_timed_out(now_ms)
+            || conn.is_stall_gated()
+        {
+            continue;
+        }
+        let q = conn.quality_cache.multiplier;
+        if q > best_quality {
+            best_quality = q;
+            best_idx = Some(i);
+        }
+    }
+
+    best_idx
+}
+
 #[cfg(test)]
 mod tests {
     use super::*;
